@@ -1,6 +1,8 @@
 import Eliot.Model.Json
 import Eliot.Model.File
 import Eliot.Proofs.JsonCodec
+import Eliot.Proofs.JsonDepth
+import Eliot.Proofs.JsonValid
 import Eliot.Proofs.JsonUtf8
 import Eliot.Proofs.FileDest
 import Eliot.Generated.FileDest
@@ -62,7 +64,10 @@ example : dumpsBytes false (.list [.str [233, 128512]])
     = .ok [91, 34, 195, 169, 240, 159, 152, 128, 34, 93] := by rfl
 example : utf8dec [91, 34, 195, 169, 240, 159, 152, 128, 34, 93] = some [91, 34, 233, 128512, 34, 93] := by rfl
 
-/-- NaN and the infinities are written as `null` (documented in the 1.15 release notes). -/
+/-- NaN and the infinities are written as `null` (documented in the 1.15 release notes).
+*Definitional:* this restates three rows of the model's own table (`isNonFinite` in `encode`), it is
+evaluation, not a derived fact; that the real encoder does this is decided by the correspondence run
+and by the model-free `expected()` oracle of `harness/props/C10.py`. -/
 theorem nonfinite_to_null :
     encode (.num [110, 97, 110]) = .ok tNull ∧ encode (.num [105, 110, 102]) = .ok tNull
     ∧ encode (.num [45, 105, 110, 102]) = .ok tNull ∧ decode tNull = some .null := by
@@ -71,7 +76,12 @@ theorem nonfinite_to_null :
 /-- The rich types reach the file in their documented form: a path as its `str()`, dates and times
 as their `isoformat()` (instances of subclasses of the date/time classes too), a set as the list of its elements, a complex number as `{"real":..,"imag":..}`,
 an object known to the caller's `json_default` as whatever that function returns for it; an object
-nobody knows, a non-string key and an aware `time` are refused. -/
+nobody knows, a non-string key and an aware `time` are refused.
+*Definitional:* every conjunct is `rfl` / unfolding of the model's dispatch table `lower` (written
+after `eliot.json.json_default` and orjson's native types); the theorem documents the table, it does
+not derive anything.  Whether the real code writes the documented form is decided by the
+model-free `expected()` oracle of `harness/props/C10.py` on real output, and the table is tied to
+the code by the byte-exact correspondence run. -/
 theorem rich_types_documented (ext : Bool) :
     (∀ t, dumpsCP ext (.path t) = dumpsCP ext (.str t))
     ∧ (∀ iso, dumpsCP ext (.date iso) = dumpsCP ext (.str iso))
@@ -96,8 +106,8 @@ example : dumpsCP false (.dict [(.str [112], .path [47, 97]), (.str [99], .compl
 /-! ## Faithfulness: `json.loads(dumps(v)) == v` -/
 
 /-- Round trip for every JSON-native value (text without surrogates, integers in
-`[-2^63, 2^64-1]`, finite floats, booleans, null, lists, string-keyed dicts, any nesting):
-the value always encodes, and `json.loads` of the output is the value.
+`[-2^63, 2^64-1]`, finite floats, booleans, null, lists, string-keyed dicts, any nesting that
+the encoder accepts): `json.loads` of the output is the value.
 Floats enter through `FloatCodec` (inside `JsonNative`): the token orjson printed is a JSON number
 with a fraction or exponent, hence scanned back as that token; that Python's float parser maps the
 token back to the same double is trusted, not proved. -/
@@ -105,10 +115,70 @@ theorem decode_encode (v : JVal) (s : List Nat) (hn : JsonNative v) (hd : NodupK
     (h : encode v = .ok s) : loads s = some v :=
   EJ.decode_encode v s hn hd h
 
-/-- … and such a value is never refused. -/
-theorem native_encodes (v : JVal) (hn : JsonNative v) : ∃ s, encode v = .ok s ∧ decode s = some v := by
-  obtain ⟨s, hs⟩ := encode_native_ok v hn
+/-- … and such a value is never refused — provided it is nested in at most 254 containers:
+orjson has a recursion limit (`maxDepth`), see `deep_nesting_refused`. -/
+theorem native_encodes (v : JVal) (hn : JsonNative v) (hdepth : v.depth ≤ maxDepth) :
+    ∃ s, encode v = .ok s ∧ decode s = some v := by
+  obtain ⟨s, hs⟩ := encode_native_ok v hn hdepth
   exact ⟨s, hs, decode_encode_pairs v s hn hs⟩
+
+/-- `nest n` = `[[…[null]…]]`, `n` brackets -/
+def nest : Nat → JVal
+  | 0 => .null
+  | n + 1 => .arr [nest n]
+
+/-- **The property's "arbitrary nesting" does not hold of the real encoder** (known finding, third-
+party limit): a value nested in 255 or more containers — lists, dicts, the list a set becomes,
+the dict a complex number becomes, containers returned by `json_default` alike — is refused
+("Recursion limit reached"), so `FileDestination` writes nothing for a message holding it. -/
+theorem deep_nesting_refused (v : JVal) (h : maxDepth < v.depth) : encode v = .error .depth :=
+  encode_depth_refused v h
+
+theorem nest_depth (n : Nat) : (nest n).depth = n := by
+  induction n with
+  | zero => rfl
+  | succ n ih => simp [nest, JVal.depth, depthList, ih]
+
+theorem nest_native (n : Nat) : JsonNative (nest n) := by
+  induction n with
+  | zero => simp [nest, JsonNative]
+  | succ n ih => simp [nest, JsonNative, JsonNativeL, ih]
+
+-- witnesses: 254 brackets are written, 255 are refused
+example : ∃ s, encode (nest 254) = .ok s ∧ decode s = some (nest 254) :=
+  native_encodes (nest 254) (nest_native 254) (by rw [nest_depth]; decide)
+example : encode (nest 255) = .error .depth := deep_nesting_refused _ (by rw [nest_depth]; decide)
+
+/-- … and a message holding such a value leaves no trace in the file. -/
+theorem deep_message_no_line (mode : Mode) (ext : Bool) (m : PyVal) (v : JVal) (hl : lower ext m = .ok v)
+    (h : maxDepth < v.depth) : (FileDest.mk mode ext).line m = none := by
+  have hcp : dumpsCP ext m = .error .depth := by simp only [dumpsCP, hl, encode_depth_refused v h]
+  cases mode with
+  | text => simp only [FileDest.line, dumps_text, hcp]
+  | binary => simp only [FileDest.line, dumps_binary, hcp]
+
+/-- the same nesting as a Python list -/
+def pyNest : Nat → PyVal
+  | 0 => .null
+  | n + 1 => .list [pyNest n]
+
+theorem lower_pyNest (ext : Bool) (n : Nat) : lower ext (pyNest n) = .ok (nest n) := by
+  induction n with
+  | zero => rfl
+  | succ n ih => simp [pyNest, nest, lower, lowerList, ih]
+
+example : (FileDest.mk .binary false).line (pyNest 255) = none :=
+  deep_message_no_line .binary false (pyNest 255) (nest 255) (lower_pyNest false 255) (by rw [nest_depth]; decide)
+
+/-- Whatever the encoder emits is valid JSON — also for messages holding NaN / inf (written as
+`null`), i.e. without the `JsonNative` hypothesis: it decodes, to the value with the non-finite
+floats replaced by `null`. -/
+theorem encode_valid_json (v : JVal) (s : List Nat) (h : encode v = .ok s) : decode s = some (nullify v) :=
+  decode_encodeU_valid v s ((encode_ok_iff v s).mp h).2
+
+-- [NaN, 1.5] is written as [null,1.5], which json.loads reads
+example : decode [91, 110, 117, 108, 108, 44, 49, 46, 53, 93] = some (.arr [.null, .num [49, 46, 53]]) :=
+  encode_valid_json (.arr [.num [110, 97, 110], .num [49, 46, 53]]) _ (by rfl)
 
 /-- Conversely the only values that encode without being JSON-native are those holding NaN / inf. -/
 theorem encodes_native (v : JVal) (s : List Nat) (h : encode v = .ok s) (hf : FiniteFloats v) : JsonNative v :=
@@ -167,11 +237,11 @@ example : utf8dec (content (fileCalls .binary true [.dict [(.str [233], .custom 
 value `v`, the binary line is `body ++ "\n"` with `body` valid UTF-8 for a text `t` and
 `json.loads(t) == v`. -/
 theorem line_faithful (ext : Bool) (m : PyVal) (v : JVal) (hl : lower ext m = .ok v)
-    (hn : JsonNative v) (hd : NodupKeysDeep v) :
+    (hn : JsonNative v) (hd : NodupKeysDeep v) (hdepth : v.depth ≤ maxDepth) :
     ∃ body t, (FileDest.mk .binary ext).line m = some (body ++ [10])
       ∧ (FileDest.mk .text ext).line m = some (t ++ [10])
       ∧ utf8dec body = some t ∧ loads t = some v := by
-  obtain ⟨t, ht⟩ := encode_native_ok v hn
+  obtain ⟨t, ht⟩ := encode_native_ok v hn hdepth
   have hcp : dumpsCP ext m = .ok t := by simp only [dumpsCP, hl, ht]
   refine ⟨utf8enc t, t, ?_, ?_, utf8dec_utf8enc t (encode_scalar v t ht), decode_encode v t hn hd ht⟩
   · simp only [FileDest.line, dumps_binary, hcp]
@@ -181,6 +251,6 @@ example : ∃ body t, (FileDest.mk .binary false).line (.dict [(.str [112], .pat
       ∧ (FileDest.mk .text false).line (.dict [(.str [112], .path [233])]) = some (t ++ [10])
       ∧ utf8dec body = some t ∧ loads t = some (.obj [([112], .str [233])]) :=
   line_faithful false (.dict [(.str [112], .path [233])]) (.obj [([112], .str [233])]) (by rfl)
-    (by simp [JsonNative, JsonNativeM, Scalar]) (by simp [NodupKeysDeep, NodupKeysDeepM])
+    (by simp [JsonNative, JsonNativeM, Scalar]) (by simp [NodupKeysDeep, NodupKeysDeepM]) (by decide)
 
 end EJ.C10
